@@ -69,10 +69,11 @@ def finish(a):
     return d
 
 
-HBASE = P.case(state="vec2", pg="scalar", pc="control+", cons=[P.con("bc0")], obj=["mayer_tf", "integral"], method="MS", N=2)
+HBASE = P.case(state="vec2", pg="scalar", pc="control+", horizon="Tparam", cons=[P.con("bc0")], obj=["mayer_tf", "integral"], method="MS", N=2)
 HALPHA = [
     ["set_value", "pg", "a"], ["set_value", "pg", "b"], ["set_value", "pc", "A"], ["set_value", "pc", "B"],
     ["query", "sample"], ["solve"], ["subject_to", P.con("pc_le")], ["method", "DC2"],
+    ["set_value_cat", 1.3, 2.6],      # one call on a concatenation of two parameters (global + horizon)
 ]
 
 
@@ -138,6 +139,6 @@ def run_case(case):
 
 def describe(tier):
     return dict(
-        rule="(a) deviation-bounded enumeration over parameter kind (global scalar / 2x2 matrix / per-interval / per-interval+include_last / parametric T / parametric t0) x place of use (rhs, bound, objective, initial condition) x value alphabet (two generic values, unit tables per column, unit matrices per element) x method/N/M/grid/degree: all NLP data vs the reference evaluated with the declared values, and vs the same OCP declared on the real code with the values written in as constants; (b) every history of length <= d over {set_value(p,a|b), set_value(q,A|B), query, solve, subject_to, method}: next solve = fresh OCP with the final values (whole parameter vector compared)",
+        rule="(a) deviation-bounded enumeration over parameter kind (global scalar / 2x2 matrix / per-interval / per-interval+include_last / parametric T / parametric t0) x place of use (rhs, bound, objective, initial condition) x value alphabet (two generic values, unit tables per column, unit matrices per element) x method/N/M/grid/degree: all NLP data vs the reference evaluated with the declared values, and vs the same OCP declared on the real code with the values written in as constants; (b) every history of length <= d over {set_value(p,a|b), set_value(q,A|B), set_value(vertcat(p,T),..), query, solve, subject_to, method}: next solve = fresh OCP with the final values (whole parameter vector compared)",
         bound="k<=%d deviations; history depth %d" % ((3, 4) if tier == "thorough" else (2, 3)),
         assumptions=["CasADi Function evaluation and Opti bookkeeping are trusted", "generic-point alphabet", "per-interval parameters have no constant form: they are compared with the reference only"])
